@@ -297,6 +297,43 @@ def c02_judge(nodes: Dict[str, Dict[str, Any]], script: Dict[str, Any], result: 
     return viol, cnt
 
 
+def single_final_state(result: Dict[str, Any]) -> Tuple[List[Dict[str, Any]], Dict[str, int]]:
+    """Exactly one final state per component, decided on the recorded assignments of controllerState ("cs.state"
+    events of the harness descriptor) plus the states read after the stage loop: once a component has been given a
+    final state, no later assignment and no later reading may show anything else."""
+    viol: List[Dict[str, Any]] = []
+    cnt = {"state_assignments": 0, "final_assignments": 0, "components_with_final_assignment": 0}
+    final_of: Dict[str, Tuple[str, int]] = {}
+    for e in result["events"]:
+        if e["kind"] != "cs.state":
+            continue
+        cnt["state_assignments"] += 1
+        n = e["comp"]
+        if n in final_of and e["new"] != final_of[n][0]:
+            viol.append({"clause": "final-state-reassigned", "component": n, "first_final": final_of[n][0],
+                         "first_seq": final_of[n][1], "then": e["new"], "seq": e["seq"]})
+        if e["new"] in FINAL and n not in final_of:
+            cnt["final_assignments"] += 1
+            final_of[n] = (e["new"], e["seq"])
+    cnt["components_with_final_assignment"] = len(final_of)
+    # readings of the harness carry their own sequence number: only an assignment made BEFORE a reading binds it
+    for e in result["events"]:
+        if e["kind"] != "harness.states":
+            continue
+        for n, st in e["states"].items():
+            if n in final_of and final_of[n][1] < e["seq"] and st != final_of[n][0]:
+                viol.append({"clause": "state-read-after-the-run-differs-from-assigned-final-state", "component": n,
+                             "assigned": final_of[n][0], "assigned_seq": final_of[n][1], "read": st,
+                             "reading": e["key"], "read_seq": e["seq"]})
+    if result.get("late_states") is not None:
+        cnt["runs_observed_past_the_stage_loop"] = 1
+        for n, st in (result.get("final_states") or {}).items():
+            if st in FINAL and result["late_states"].get(n) != st:
+                viol.append({"clause": "final-state-changed-after-the-stage-loop-returned", "component": n,
+                             "at_return": st, "later": result["late_states"].get(n)})
+    return viol, cnt
+
+
 # --------------------------------------------------------------------------- C12
 
 def c12_policy(wa: Dict[str, Any]) -> Dict[str, Any]:
